@@ -596,7 +596,14 @@ pub fn run(args: &Args) -> Report {
     flush(&mut report, "rid_templates", acc);
 
     // from_components: every 4-tuple
-    let cm = words(COMPONENT_ALPHABET, args.tier.pick(1, 2));
+    let mut cm = words(COMPONENT_ALPHABET, args.tier.pick(1, 2));
+    // dotted components whose head or tail is itself a valid neighbour component (a dot that
+    // shifts the boundaries must be noticed even when the shifted pieces look right)
+    for extra in ["a.a", ".a", "a.", "a.z", "z.a", "..", "a.a.a", "a-0.a"] {
+        if !cm.iter().any(|c| c == extra) {
+            cm.push(extra.to_string());
+        }
+    }
     let acc = cm
         .par_iter()
         .fold(Acc::default, |mut acc, a| {
